@@ -109,7 +109,7 @@ class C03(UtfCheck):
         # ---- block-wise shapes (word-at-a-time rewrites): a malformed unit, and a well-formed wide character, at every
         #      offset of 40 units of ASCII; forms ending exactly at / one unit past a block boundary; whole blocks
         for kind in ('8', '16', '32'):
-            shaped = block_malformed(kind) + [encode(kind, sc) for sc in block_scalars()]
+            shaped = block_malformed(kind) + [encode(kind, sc) for sc in block_scalars()] + long_malformed(kind)
             for i, u in enumerate(shaped):
                 allf = FN_BY_SRC[kind]
                 fns = allf if not quick else [allf[(i + j * 2) % len(allf)] for j in range(2)]
@@ -120,7 +120,7 @@ class C03(UtfCheck):
                 if kind == '8' and i % 4 == 0:
                     for fn in STR_TO_FNS[1:]:
                         yield case(fn, 'to', '_', '1' if fn == 'str_to_latin_1' else '_', u)
-        for i, b in enumerate(block_latin1()):
+        for i, b in enumerate(block_latin1() + long_latin1()):
             for fn in FN_BY_SRC['l1']:
                 yield case(fn, 'ptr', '_', '_', b)
         # ---- result sizes around the short-buffer limit, long inputs
